@@ -54,6 +54,11 @@ def runs(path):
 
 
 r1, r2 = runs(first), runs(final)
+
+NOTES = {
+    "C05-6": "needs a column named like an SQL reserved word (Order, Group, User, ...): on the unchanged tree such a column already gives a schema PostgreSQL refuses, so these names are a documented precondition of the property and are never generated (DESIGN.md 3.1, 8.6)",
+    "C15-5": "needs an imported package named like the analysed one (or two imported packages with one name); for a property that compiles the generated Go this is outside the domain: the import-fixing pass resolves the package-name qualifier to the package itself on the unchanged tree as well (import cycle). The same change is caught by C10 (tools/seedrun.sh seeded/C15-5 C10 quick 1: VIOLATION) and C11, where only the analysis is observed",
+}
 verdict = {0: "MISSED", 1: "caught (VIOLATION)", 2: "inconclusive (exit 2)", 3: "patch did not apply"}
 rows = []
 for d in sorted(glob.glob(os.path.join(src, "C*-*"))):
@@ -89,6 +94,8 @@ for d in sorted(glob.glob(os.path.join(src, "C*-*"))):
         out["checks_run"]["first_run_before_strengthening"] = {"verdict": verdict.get(r1[sid]["rc"], str(r1[sid]["rc"])), "line": r1[sid]["summary"]}
     if sid in r2:
         out["checks_run"]["final_run"] = {"verdict": verdict.get(r2[sid]["rc"], str(r2[sid]["rc"])), "line": r2[sid]["summary"], "message": r2[sid]["detail"]}
+    if sid in NOTES:
+        out["checks_run"]["why_not_caught"] = NOTES[sid]
     json.dump(out, open(os.path.join(dst, "meta.json"), "w"), indent=1)
     rows.append((sid, meta["property"], meta.get("summary", "").split(". ")[0][:150], verdict.get(r1.get(sid, {}).get("rc"), "-"), verdict.get(r2.get(sid, {}).get("rc"), "-")))
 
